@@ -10,16 +10,23 @@
 #include <errno.h>
 #include <string.h>
 #include <arpa/inet.h>
+#include <stdlib.h>
 
 /* ========================================================================
  * Path helpers
  * ======================================================================== */
 
 void vmd_socket_path(char *buf, size_t size) {
+#ifdef NANOLANG_VERIF
+    { const char *d = getenv("NLVERIF_VMD_DIR"); if (d && d[0]) { snprintf(buf, size, "%s/vmd.sock", d); return; } }
+#endif
     snprintf(buf, size, "/tmp/nanolang_vm_%u.sock", (unsigned)getuid());
 }
 
 void vmd_pid_path(char *buf, size_t size) {
+#ifdef NANOLANG_VERIF
+    { const char *d = getenv("NLVERIF_VMD_DIR"); if (d && d[0]) { snprintf(buf, size, "%s/vmd.pid", d); return; } }
+#endif
     snprintf(buf, size, "/tmp/nanolang_vm_%u.pid", (unsigned)getuid());
 }
 
